@@ -130,7 +130,7 @@ def run_check(prop, tier, seed, out=sys.stdout):
         for w in range(WORKERS):
             hs = derive("hashseed", seed, prop, tier, w) % (2**32)
             mp = None
-            if tier == "thorough" and w % 4 == 3:
+            if w % 4 == 3:  # every fourth worker: C-level allocations are perturbed too (glibc MALLOC_PERTURB_)
                 mp = 1 + derive("perturb", seed, prop, w) % 254
             job = {
                 "prop": prop,
